@@ -70,6 +70,9 @@ static void url_case(const std::string &s){ vf::eval(); vf::announce("url len="+
 }
 // decoder on arbitrary text: must not crash; on text whose every % starts a valid escape, equals the reference
 static void urldecode_case(const std::string &s){ vf::eval(); vf::announce("urldecode "+vf::hex(s)); std::string d=util::urldecode(s); std::string d2=util::urldecode(s.data(),s.data()+s.size()); if(d!=d2) bad("urldecode-overloads","the two urldecode overloads disagree",s);
+	// the pointer-range overload must not look at *end: an exact-size heap copy (ASan sees a read past it) and a range that is followed in memory by hex digits
+	{ char *ex=new char[s.size()?s.size():1]; memcpy(ex,s.data(),s.size()); std::string d3=util::urldecode(ex,ex+s.size()); delete [] ex; if(d3!=d) bad("urldecode-range-exact","urldecode(begin,end) on an exact-size buffer differs from urldecode(string)",s);
+	  std::string big=s+"41%41"; std::string d4=util::urldecode(big.data(),big.data()+s.size()); if(d4!=d) bad("urldecode-reads-past-end","urldecode(begin,end) depends on the bytes after end: got "+vf::vis(d4)+" instead of "+vf::vis(d),s); }
 	std::string ref; bool wf=true; for(size_t i=0;i<s.size();){ unsigned char c=s[i]; if(c=='+'){ ref+=' '; i++; } else if(c=='%'){ if(i+2<s.size()&&ishex(s[i+1])&&ishex(s[i+2])){ ref+=(char)(hexv(s[i+1])*16+hexv(s[i+2])); i+=3; } else { wf=false; break; } } else { ref+=(char)c; i++; } }
 	if(wf){ vf::guard("urldecode_wellformed"); if(d!=ref) bad("urldecode-value","urldecode of well-formed text differs from the reference: got "+vf::vis(d),s); } else { vf::guard("urldecode_malformed"); if(d.size()>s.size()) bad("urldecode-grow","urldecode output longer than input",s); }
 	vf::outcome("ud|"+d+(wf?"|w":"|m")); }
